@@ -8,13 +8,15 @@
 (* SampleFormats.tla (Conv) and SampleTypes.tla (New, FromRep, Widen, Cmp, *)
 (* Op).  Integers are compared exactly, floats by their IEEE fields.       *)
 (* TLC prints                                                              *)
-(*     <<"BAD", {line numbers not accepted}>>                              *)
-(*     <<"HEAPSET", {lines whose call touched the heap}>>      (for C07)   *)
-(*     <<"OUTSIDE", {lines outside the properties' domains, not judged}>>  *)
+(*     <<"BAD", {l}>>      for every line l that is not accepted           *)
+(*     <<"HEAPSET", {l}>>  for every line whose call touched the heap (C07)*)
+(*     <<"OUTSIDE", {l}>>  for every line outside the properties' domains  *)
+(*                         (reported, not judged)                          *)
+(*     <<"COUNTS", #BAD, #HEAPSET, #OUTSIDE>>, <<"JUDGED", #lines>>        *)
 (*                                                                         *)
 (* Event formats: harness/hx_sample/src/main.rs.                           *)
 (***************************************************************************)
-EXTENDS SampleFormats, SampleTypes, TLC, Json, IOUtils
+EXTENDS SampleFormats, SampleTypes, FiniteSets, TLC, Json, IOUtils
 
 Rec == ndJsonDeserialize(IOEnv.TRACE)
 
@@ -159,8 +161,11 @@ Bad     == { i \in 1..Len(Rec) : ~Ok(Rec[i]) }
 HeapSet == { i \in 1..Len(Rec) : Rec[i].ev \in Known /\ ~HeapOk(Rec[i]) }
 Outside == { i \in 1..Len(Rec) : Rec[i].ev \in Known /\ ~Judged(Rec[i]) }
 
-ASSUME PrintT(<< "BAD", Bad >>)
-ASSUME PrintT(<< "HEAPSET", HeapSet >>)
-ASSUME PrintT(<< "OUTSIDE", Outside >>)
+\* One line per member: TLC pretty-prints a long set over many lines as `<< "BAD",\n   { 44,\n     45, ...`,
+\* which line-oriented readers (kit.validate's regex included) do not recognise.
+ASSUME \A i \in Bad : PrintT(<< "BAD", {i} >>)
+ASSUME \A i \in HeapSet : PrintT(<< "HEAPSET", {i} >>)
+ASSUME \A i \in Outside : PrintT(<< "OUTSIDE", {i} >>)
+ASSUME PrintT(<< "COUNTS", Cardinality(Bad), Cardinality(HeapSet), Cardinality(Outside) >>)
 ASSUME PrintT(<< "JUDGED", Len(Rec) >>)
 =============================================================================
